@@ -193,7 +193,7 @@ JSock(r) ==
   CASE r.op = "recv" ->
          \* every well-formed frame surfaces once, in arrival order; malformed ones are dropped and harm nobody
          (IF r.got = Surf(r.sent) THEN {}
-          ELSE {IF \E i \in 1..Len(r.sent) : r.sent[i].wf = 0 THEN "C01.ReceiverSurvives" ELSE "C16.InOrderOnce"})
+          ELSE IF \E i \in 1..Len(r.sent) : r.sent[i].wf = 0 THEN {"C01.ReceiverSurvives", "C16.InOrderOnce"} ELSE {"C16.InOrderOnce"})
          \cup (IF r.closed = 1 /\ r.gone = 1 THEN {} ELSE {"C16.ClosedAfter"})
     [] r.op = "send" ->
          LET hexes == [i \in 1..Len(r.sent) |-> r.sent[i].hex]
